@@ -432,12 +432,14 @@ func (r *Reader) parseWorksheetPart(data []byte, name string, index int, fresh b
 		if endCol > maxCol {
 			endCol = maxCol
 		}
-		if rows, cols := endRow-mr.StartRow+1, endCol-mr.StartCol+1; rows > 0 && cols > 0 {
-			if rows*cols > mergeBudget {
-				break
-			}
-			mergeBudget -= rows * cols
+		rows, cols := endRow-mr.StartRow+1, endCol-mr.StartCol+1
+		if rows <= 0 || cols <= 0 {
+			continue // nothing of the region lies inside the grid
 		}
+		if rows*cols > mergeBudget {
+			break
+		}
+		mergeBudget -= rows * cols
 		for row := mr.StartRow; row <= mr.EndRow && row < len(sheet.Rows); row++ {
 			for col := mr.StartCol; col <= mr.EndCol && col < len(sheet.Rows[row]); col++ {
 				cell := &sheet.Rows[row][col]
